@@ -27,6 +27,7 @@ type CheckSpec struct {
 	Outside     string
 	Replay      string // "native" (default) | "engine"
 	Extra       func(tier string, ev *Evidence) (violations []string, err error) // non-engine side conditions
+	Lockset     bool
 	Differential int   // number of sample vectors run through engine-concrete and native and compared
 }
 
@@ -435,6 +436,9 @@ func runCheck(spec *CheckSpec, tier string) int {
 		if jobs[i].Cross == 0 {
 			jobs[i].Cross = 97
 		}
+		if spec.Lockset {
+			jobs[i].Lockset = true
+		}
 	}
 	nw := 16
 	if s := os.Getenv("GOSYM_WORKERS"); s != "" {
@@ -479,6 +483,8 @@ func runCheck(spec *CheckSpec, tier string) int {
 		v   Violation
 	}
 	var raws []rawViol
+	candSeen := map[string]bool{}
+	var cands []string
 	for i, r := range results {
 		if r == nil {
 			agg.engineErrs = append(agg.engineErrs, fmt.Sprintf("job %d: no result", i))
@@ -526,6 +532,13 @@ func runCheck(spec *CheckSpec, tier string) int {
 		}
 		for _, v := range r.Violations {
 			raws = append(raws, rawViol{jobs[i], v})
+		}
+		for _, c := range r.Candidates {
+			k := c.A + " <-> " + c.B + "  [" + c.RoleA + " / " + c.RoleB + "]"
+			if !candSeen[k] {
+				candSeen[k] = true
+				cands = append(cands, k)
+			}
 		}
 	}
 
@@ -585,6 +598,15 @@ func runCheck(spec *CheckSpec, tier string) int {
 			o = nb.replay(rv.job.Pkg, rv.job.Harness, rv.job.Params, rv.v.Vector)
 		}
 		ok := o.Status == "assert-failed" || o.Status == "panic" || o.Status == "timeout"
+		if !ok && spec.Replay != "engine" {
+			// float64 / time values are opaque to the solver (uninterpreted formatting): the model's
+			// bit pattern is arbitrary. Retry the replay with a table of concrete boundary values.
+			if alt, o2, hit := retryOpaque(nb, rv.job, rv.v); hit {
+				rv.v.Vector = alt
+				rv.v.Notes = append(rv.v.Notes, "float/time draws replaced by a concrete boundary value for the native replay")
+				o, ok = o2, true
+			}
+		}
 		if !ok {
 			unconfirmed = append(unconfirmed, fmt.Sprintf("%s%v %s: %s (vector %v) -> replay %s %s", rv.job.Harness, rv.job.Params, rv.v.Kind, rv.v.Msg, rv.v.Vector, o.Status, truncate(o.Detail, 200)))
 			continue
@@ -715,6 +737,11 @@ func runCheck(spec *CheckSpec, tier string) int {
 	cov["differential_mismatches"] = diffBad
 	if len(diffNotes) > 0 {
 		cov["differential_notes"] = diffNotes
+	}
+	if spec.Lockset {
+		sort.Strings(cands)
+		cov["lockset_candidates"] = cands
+		cov["lockset_candidate_count"] = len(cands)
 	}
 	cov["counterexamples_found"] = len(raws)
 	cov["counterexamples_confirmed_by_replay"] = len(conf)
@@ -871,4 +898,57 @@ func replayMain(args []string) int {
 		return 0
 	}
 	return 1
+}
+
+var floatCandidates = []float64{1e-5, 1e6, 2.5000005e+06, 1e21, 123456789.125, 1e-7, -1e6, 0.000001, 100000, 0.001, 1.39851, 5e-324, 1.7976931348623157e308, -0.0}
+var timeCandidates = []uint64{0, 1, 999, 1000, 86399999, 951782400000, 1709164800123, 4102444799999}
+
+// retryOpaque replays a counterexample with every float (and time) draw replaced by table values.
+func retryOpaque(nb *nativeBuild, job Job, v Violation) ([]uint64, replayOutcome, bool) {
+	hasF, hasT := false, false
+	for _, n := range v.Names {
+		if n == "float" {
+			hasF = true
+		}
+		if n == "timems" {
+			hasT = true
+		}
+	}
+	if !hasF && !hasT {
+		return nil, replayOutcome{}, false
+	}
+	try := func(fbits uint64, tms uint64, useF, useT bool) ([]uint64, replayOutcome, bool) {
+		alt := append([]uint64{}, v.Vector...)
+		for i, n := range v.Names {
+			if i >= len(alt) {
+				break
+			}
+			if n == "float" && useF {
+				alt[i] = fbits
+			}
+			if n == "timems" && useT {
+				alt[i] = tms
+			}
+		}
+		o := nb.replay(job.Pkg, job.Harness, job.Params, alt)
+		if o.Status == "assert-failed" || o.Status == "panic" || o.Status == "timeout" {
+			return alt, o, true
+		}
+		return nil, o, false
+	}
+	if hasF {
+		for _, f := range floatCandidates {
+			if a, o, ok := try(float64bits(f), 0, true, false); ok {
+				return a, o, true
+			}
+		}
+	}
+	if hasT {
+		for _, t := range timeCandidates {
+			if a, o, ok := try(0, t, false, true); ok {
+				return a, o, true
+			}
+		}
+	}
+	return nil, replayOutcome{}, false
 }
